@@ -3,9 +3,9 @@
 State space (DESIGN.md §3 C10), a complete product lattice:
   layer A  every single-reaction shape of order 0..3 x every spelling of k = 3 c^(1-order)/t (5 concentration units x
            4 time units): Reaction(...) must accept; x 14 one-off wrong dimensions (k times M, s, m, kg, A, K, mol to
-           the power +-1): Reaction(...) must raise
+           the power +-1) and every other concentration exponent -3..3: Reaction(...) must raise
   layer E  equilibria with products-reactants in -2..2: K = 3 c^(dnu) in every concentration unit (observation only)
-           and x 14 one-off wrong dimensions: Equilibrium(...) must raise
+           and x 14 one-off wrong dimensions x every other concentration exponent -3..3: Equilibrium(...) must raise
   layer K  every reaction-system shape x every base registry x 3 ways of giving the constants to get_odesys (inlined,
            free and named, free with unique keys) x every spelling of k x 10 spellings of the state: physical rate of
            change from f_cb(to_arrays(...)) = hand rate in mol/m3/s; p_units x parameter magnitudes = given constants
@@ -93,7 +93,7 @@ def bounds(tier):
         k_spellings=len(CONC) * len(TIME),
         conc_units=[c[0] for c in CONC],
         time_units=[t[0] for t in TIME],
-        wrong_dimension_variants=["k*%s**%d" % w for w in WRONG],
+        wrong_dimension_variants=["k*%s**%d" % w for w in WRONG] + ["concentration exponent j in -3..3, j != the right one"],
         registries=len(regs),
         registry_units=dict(length=sorted({LEN[r[0]][0] for r in regs}), time=sorted({RTIME[r[1]][0] for r in regs}),
                             amount=sorted({AMT[r[2]][0] for r in regs}), mass=sorted({MASS[r[3]][0] for r in regs})),
@@ -328,6 +328,59 @@ def op_accept(res, si_, ci, ti, wi):
             res.outcomes["reaction-wrong-dimension-ACCEPTED"] += 1
             res.violation("C10|Reaction|order-%d|wrong-dimension-accepted" % n, "Reaction(%s, param=%s) was accepted; order %d needs concentration^%d/time"
                           % (case["reaction"], desc, n, 1 - n), case, "accepted", "exception")
+
+
+def op_accept_exponent(res, si_, ci, ti, j):
+    """k = 3 c^j / t for every exponent j: accepted iff j = 1 - order"""
+    chempy = E()["chempy"]
+    reac, prod = SINGLE[si_]
+    n = _order(reac)
+    k = 3.0 / E()["time"][ti]
+    if j:
+        k = k * E()["conc"][ci] ** j
+    desc = "3 %s**%d/%s" % (CONC[ci][0], j, TIME[ti][0])
+    case = dict(op="accept_exponent", args=[si_, ci, ti, j], reaction="%r -> %r" % (reac, prod), k=desc)
+    res.states += 1
+    res.transitions += 1
+    res.nontrivial += 1
+    res.symbols["k-conc-exponent:%+d" % j] += 1
+    got = _obs(lambda: chempy.Reaction(reac, prod, k))
+    res.evaluations += 1
+    if j == 1 - n:
+        if _isexc(got):
+            res.outcomes["reaction-right-dimension-REJECTED"] += 1
+            res.violation("C10|Reaction|order-%d|right-dimension-rejected" % n, "Reaction(%s, param=%s) raised %s" % (case["reaction"], desc, got), case, got, "accepted")
+        else:
+            res.outcomes["reaction-accepted"] += 1
+    elif _isexc(got):
+        res.outcomes["reaction-wrong-dimension-refused|" + got[4:]] += 1
+    else:
+        res.outcomes["reaction-wrong-dimension-ACCEPTED"] += 1
+        res.violation("C10|Reaction|order-%d|wrong-dimension-accepted" % n, "Reaction(%s, param=%s) was accepted; order %d needs concentration^%d/time"
+                      % (case["reaction"], desc, n, 1 - n), case, "accepted", "exception")
+
+
+def op_eq_exponent(res, ei, ci, j):
+    """K = 3 c^j for every exponent j != products - reactants must be refused (j = 0: a dimensionless quantity)"""
+    chempy = E()["chempy"]
+    reac, prod = EQS[ei]
+    dnu = sum(prod.values()) - sum(reac.values())
+    c = E()["conc"][ci]
+    K = 3.0 * c ** j if j else 3.0 * (c / c)
+    desc = "3 %s**%d" % (CONC[ci][0], j)
+    case = dict(op="eq_exponent", args=[ei, ci, j], equilibrium="%r = %r" % (reac, prod), K=desc)
+    res.states += 1
+    res.transitions += 1
+    res.nontrivial += 1
+    res.symbols["K-conc-exponent:%+d" % j] += 1
+    got = _obs(lambda: chempy.Equilibrium(reac, prod, K))
+    res.evaluations += 1
+    if _isexc(got):
+        res.outcomes["equilibrium-wrong-dimension-refused|" + got[4:]] += 1
+    else:
+        res.outcomes["equilibrium-wrong-dimension-ACCEPTED"] += 1
+        res.violation("C10|Equilibrium|dnu=%+d|wrong-dimension-accepted" % dnu, "Equilibrium(%s, param=%s) was accepted; needs concentration^%d"
+                      % (case["equilibrium"], desc, dnu), case, "accepted", "exception")
 
 
 def op_eq(res, ei, ci, wi):
@@ -798,6 +851,8 @@ def run_chunk(chunk, tier):
                 op_accept(res, chunk[1], ci, ti, None)
                 for wi in range(len(WRONG)):
                     op_accept(res, chunk[1], ci, ti, wi)
+                for j in range(-3, 4):
+                    op_accept_exponent(res, chunk[1], ci, ti, j)
         res.sample(dict(layer="A", reaction=repr(SINGLE[chunk[1]])))
     elif kind == "E":
         for ei in range(len(EQS)):
@@ -805,6 +860,10 @@ def run_chunk(chunk, tier):
                 op_eq(res, ei, ci, None)
                 for wi in range(len(WRONG)):
                     op_eq(res, ei, ci, wi)
+                dnu = sum(EQS[ei][1].values()) - sum(EQS[ei][0].values())
+                for j in range(-3, 4):
+                    if j != dnu:
+                        op_eq_exponent(res, ei, ci, j)
         res.sample(dict(layer="E", equilibria=[repr(e) for e in EQS]))
     elif kind == "K":
         _layer_K(res, tier, *chunk[1:])
@@ -819,7 +878,7 @@ def run_chunk(chunk, tier):
     return res
 
 
-OPS = dict(accept=op_accept, eq=op_eq, rate=op_rate, integrate=op_integrate, validate=op_validate, solve=op_solve, to_arrays_reject=op_to_arrays_reject)
+OPS = dict(accept=op_accept, accept_exponent=op_accept_exponent, eq=op_eq, eq_exponent=op_eq_exponent, rate=op_rate, integrate=op_integrate, validate=op_validate, solve=op_solve, to_arrays_reject=op_to_arrays_reject)
 
 
 def replay(case):
